@@ -71,7 +71,12 @@ def handle (args : List String) (impl : String) : R Ans :=
     let mp := maxPath g scoreOf solidOf
     let mpSeq := sequenceOfPath g mp
     let wSeq := sequenceOfPath g walk
-    let model := s!"edges={showAllEdges edges}|links={if links.isEmpty then "-" else ",".intercalate links}|valid={if vex.isEmpty then "-" else ",".intercalate (vex.map fun e => toHex e.val 2)}|maxpath={showPath mp}|mpseq={match mpSeq with | some s => showDigits s | none => "panic"}|wseq={match wSeq with | some s => showDigits s | none => "panic"}"
+    let beams := [1, 2, 5].map fun b => maxPathBeam g b scoreOf
+    let showB := fun (p : Option (List (Nat × Dir))) => match p with | some p => showPath p | none => "panic"
+    let showBS := fun (p : Option (List (Nat × Dir))) => match p with
+      | some p => (match sequenceOfPath g p with | some s => showDigits s | none => "panic")
+      | none => "panic"
+    let model := s!"edges={showAllEdges edges}|links={if links.isEmpty then "-" else ",".intercalate links}|valid={if vex.isEmpty then "-" else ",".intercalate (vex.map fun e => toHex e.val 2)}|maxpath={showPath mp}|mpseq={match mpSeq with | some s => showDigits s | none => "panic"}|wseq={match wSeq with | some s => showDigits s | none => "panic"}|beam={";".intercalate (beams.map showB)}|bseq={";".intercalate (beams.map showBS)}"
     let verdict ← do
       if impl == "panic" then pure "FAIL:panic-in-range" else
       match field impl "edges", field impl "valid", field impl "maxpath", field impl "mpseq", field impl "wseq" with
@@ -83,6 +88,12 @@ def handle (args : List String) (impl : String) : R Ans :=
         let iv ← if v == "-" then pure [] else (v.splitOn ",").mapM fun h => do pure (⟨← hex h⟩ : Exts)
         let im ← parsePath m
         let ims ← digits ms; let iws ← digits ws
+        let ib ← match field impl "beam", field impl "bseq" with
+          | some b, some bs =>
+            if (b.splitOn ";").length ≠ 3 ∨ (bs.splitOn ";").length ≠ 3 then throw "malformed-answer" else
+            ((b.splitOn ";").zip (bs.splitOn ";")).mapM fun (x : String × String) =>
+              if x.1 == "panic" ∨ x.2 == "panic" then pure none else do pure (some (← parsePath x.1, ← digits x.2))
+          | _, _ => throw "malformed-answer"
         pure (if ¬ edgesSound g ie then "FAIL:edge-without-K-1-overlap/arrival-side/flip"
               else if il.length ≠ probes.length ∨ ¬ (probes.zip il).all (fun (p, a) => linkExact g p.1 p.2 a) then "FAIL:link-lookup-not-exact"
               else if ¬ validExtsExact g valid iv then "FAIL:extension-pruning-not-exact"
@@ -90,6 +101,9 @@ def handle (args : List String) (impl : String) : R Ans :=
               else if ¬ (im.map (·.1)).Nodup then "FAIL:best-path-repeats-a-node"
               else if ¬ pathSeqOK g im ims then "FAIL:best-path-sequence-kmers-differ-from-walked-nodes"
               else if walkValid ie walk ∧ ¬ pathSeqOK g walk iws then "FAIL:walk-sequence-kmers-differ-from-walked-nodes"
+              else if ib.any (·.isNone) then "FAIL:beam-search-panics"
+              else if ¬ ib.all (fun x => match x with | some (p, _) => walkValid ie p | none => true) then "FAIL:beam-path-steps-off-the-reported-edges"
+              else if ¬ ib.all (fun x => match x with | some (p, s) => p.isEmpty ∨ pathSeqOK g p s | none => true) then "FAIL:beam-path-sequence-kmers-differ-from-walked-nodes"
               else "ok")
       | _, _, _, _, _ => pure "FAIL:malformed-answer"
     pure { model, verdict }
